@@ -53,7 +53,7 @@ CLAIMED.update({
                       "recursion obligations on the generic head (Z.*). Assumes: semantic adequacy of the extended definitions",
             "abstract interpretation + guard equivalence over satisfiability patterns + small integer reasoning"),
     "C09": ("§4 C09", "decides three clauses only: D1 SHORTCUT.guard/dominance, D2 the per-operator decision SAT(A∧¬B)∧UNSAT(A∧B) ⇒ False "
-                      "(Z.decision, W.subset-test rows with V=∅, LEX.cardinality, LEX.strict-shortcuts), D3 CNF.roles/literals/constants. Not "
+                      "(Z.decision, W.subset-test rows with V=∅, LEX.cardinality, LEX.strict-shortcuts), D3 CNF.roles/literals/constants and Z.start / W.start / LEX.start (direct inference needs every layer reached). Not "
                       "decided: And, Or, cautious monotony, Cut, rational monotony, LLE, RW (relations between answers of different queries)",
             "composition of the operator rules (abstract interpretation, decision tables)"),
     "C11": ("§4 C11", "decides: BACKEND.dispatch, BACKEND.engine-neutral, DISPATCH, W.siblings / LEX.siblings / EXT.siblings (both implementations "
